@@ -54,7 +54,7 @@ def cases(draw):
     sizes = G.tensor_sizes(wl)
     tot, big = sum(sizes.values()), max(sizes.values())
     main_keep = draw(st.sampled_from(["~Intermediates", "~Intermediates", "All"]))
-    leak = st.sampled_from([0, 1, 0.25, 2])
+    leak = st.sampled_from([1, 0, 0.25, 2])
     tp = st.sampled_from(["inf", 0.5, 1, 2, 4])
     en = st.sampled_from([0, 0.5, 1, 2, 3, 8])
     nodes = [{"type": "Memory", "name": "Main", "size": "inf", "keep": main_keep, "may_keep": "All",
@@ -80,13 +80,12 @@ def cases(draw):
                   "leak": draw(leak)})
     d = dict(wl)
     d["nodes"] = nodes
-    d["n_instances"] = draw(st.sampled_from([1, 1, 1, 2]))
+    d["n_instances"] = draw(st.sampled_from([1, 1, 1, 1, 2]))
     d["einsums"] = [dict(e) for e in d["einsums"]]
     if draw(st.integers(0, 3)) == 0:
         draw(st.sampled_from(d["einsums"]))["n_instances"] = draw(st.sampled_from([2, 3]))
-    d["mapper"] = {"metrics": draw(st.sampled_from(["ENERGY|LATENCY", "ENERGY|LATENCY", "ENERGY|LATENCY|RESOURCE_USAGE",
-                                                    "ENERGY|LATENCY|RESOURCE_USAGE", "ENERGY", "LATENCY",
-                                                    "ENERGY_DELAY_PRODUCT"]))}
+    d["mapper"] = {"metrics": draw(st.sampled_from(["ENERGY|LATENCY|RESOURCE_USAGE"] * 4 + ["ENERGY|LATENCY"] * 3
+                                                   + ["ENERGY", "LATENCY", "ENERGY_DELAY_PRODUCT"]))}
     d["names"] = draw(st.sampled_from(["plain", "plain", "nested"]))
     return d
 
@@ -298,7 +297,7 @@ def check(desc, col):
         col.labels["calls:" + k] += v
 
 
-N = {"quick": 48, "thorough": 480}
+N = {"quick": 64, "thorough": 640}
 NSHARDS = 16
 QUICK_BUDGET_S = 400
 THOROUGH_BUDGET_S = 2400
